@@ -332,7 +332,35 @@ example :
 example : accepts {} { id := 0, kind := .ing, typ := .update, ns := some 0, name := 2, vOld := false, vNew := false } = false := by
   decide
 
+/-- an accepted IngressClass event asks for a full sync: batch flag and queue item -/
+example :
+    let e : Event := { id := 0, kind := .ingcls, typ := .update, ns := none, name := 2 }
+    accepts {} e = true ∧ (run {} [.ev e, .swap]).1.map (·.full) = [true] ∧ (run {} [.ev e, .swap]).2.q = [true] := by
+  decide
+
 /-! ## regenerated facts -/
+
+/-- the kinds in handler-table order (`handlersCore`, `handlersIngress`, gateway v1alpha2, v1beta1,
+v1, TCPRoute) and the Go type each watches -/
+def tableKinds : List Kind :=
+  [.cm, .svc, .ep, .eps, .secret, .pod, .ing, .ingcls, .gwA2, .gwclsA2, .hrA2, .gwB1, .gwclsB1, .hrB1,
+   .gwV1, .gwclsV1, .hrV1, .tcpr]
+
+def Kind.goType : Kind → String
+  | .cm => "api.ConfigMap" | .svc => "api.Service" | .ep => "api.Endpoints"
+  | .eps => "discoveryv1.EndpointSlice" | .secret => "api.Secret" | .pod => "api.Pod"
+  | .ing => "networking.Ingress" | .ingcls => "networking.IngressClass"
+  | .gwA2 => "gatewayv1alpha2.Gateway" | .gwclsA2 => "gatewayv1alpha2.GatewayClass" | .hrA2 => "gatewayv1alpha2.HTTPRoute"
+  | .gwB1 => "gatewayv1beta1.Gateway" | .gwclsB1 => "gatewayv1beta1.GatewayClass" | .hrB1 => "gatewayv1beta1.HTTPRoute"
+  | .gwV1 => "gatewayv1.Gateway" | .gwclsV1 => "gatewayv1.GatewayClass" | .hrV1 => "gatewayv1.HTTPRoute"
+  | .tcpr => "gatewayv1alpha2.TCPRoute"
+
+/-- the model's kind table is the handler table of watchers.go: same handlers, and `Kind.full`
+is true exactly for the handlers declared with `full: true` (IngressClass included) -/
+theorem facts_c14_table :
+    Facts.c14HandlerTypes = tableKinds.map Kind.goType ∧
+    Facts.c14FullTypes = (tableKinds.filter Kind.full).map Kind.goType := by
+  decide
 
 /-- the parts of watchers.go the model depends on syntactically: every handler entry point and
 `getChangedObjects` take `watchers.mu` first; Create/Update/Delete call the closure, `compose`
